@@ -310,8 +310,13 @@ func leanStrList(xs []string) string {
 }
 
 func main() {
+	if len(os.Args) == 4 && os.Args[1] == "-golden" {
+		repo = os.Args[2]
+		writeGolden(os.Args[3])
+		return
+	}
 	if len(os.Args) != 3 {
-		die("usage: go2lean <repo> <lean project dir>")
+		die("usage: go2lean [-golden] <repo> <lean project dir>")
 	}
 	repo = os.Args[1]
 	out := os.Args[2]
